@@ -292,6 +292,7 @@ class PrintWorld(Renderer):
         self._foreign_seen = set()
         self.c02_on = True            # C02 judges only the job whose own destinations stay clear
         self.file_feeds = {0.0}       # feed rates (mm/min) the input stream has selected so far
+        self._u_before_e = None
         self.file_retract_amounts = set()   # lengths (mm) of (sums of consecutive) retractions of the file
         self._cycle = []
         self.op_records = {}          # per sender op: decision / episode / printer position (C08)
@@ -402,6 +403,7 @@ class PrintWorld(Renderer):
         U_before = None
         if src != "plugin":
             U_before, _ = U.run(cmd)
+            self._u_before_e = U_before[4]
             self.sim_time = U.clock
         if src != "plugin" and code is not None:
             self.file_feeds.add(U.feed)
@@ -721,6 +723,17 @@ class PrintWorld(Renderer):
             probs = strict_problems(wc)
             if probs:
                 self.fail("C07", "format", "synthesised command %r: %s" % (wc, "; ".join(probs)))
+            # intended value of a G92 E word: the file's extruder coordinate (at exits and re-syncs), or that
+            # coordinate shifted by a retraction length of the file (the G92 half of a retract / recover pair)
+            if code == "G92" and w_.get("E") is not None and self.tracking():
+                v_mm = w_["E"] * self.F.unit
+                bases = [self.U.E] + ([self._u_before_e] if self._u_before_e is not None else [])
+                shifts = [0.0] + sorted(self.file_retract_amounts)
+                tol = 2 * self._etol() + 1e-9 * abs(self.U.E)
+                if not any(abs(v_mm - (b + sgn * a)) <= tol for b in bases for a in shifts for sgn in (1, -1)):
+                    self.fail("C07", "g92e", "synthesised command %r sets E to %.6f mm on the printer; the file's "
+                              "extruder coordinate is %.6f (before this command %s)"
+                              % (wc, v_mm, self.U.E, self._u_before_e))
             # intended value of an F word: a feed rate the file has selected at some point (the modal feed rate
             # for re-positioning, the retraction's own feed rate for retract / recover), in the printer's units
             if code in ("G0", "G1") and w_.get("F") is not None and self.tracking():
